@@ -212,6 +212,9 @@ def popBack (s : RVec) : RVec := { s with size := s.size - 1 }
 
 /-- `prepare_for_insert(index, count)`; returns the state and `reconstruct_end_size` -/
 def prepareForInsert (c : Cfg) (s : RVec) (index count : Nat) : RVec × Nat :=
+  -- `if (count == 0) return min(index, _constructed_size);` — present in the source iff the
+  -- translator found it (`zeroCountGuard`, see patches/C12-insert-zero-count-self-move.diff)
+  if zeroCountGuard && count == 0 then (s, min index s.cons) else
   let s := s.reserve c (s.size + count)
   let moveEnd := max (index + count) s.cons
   let reconEnd := min (index + count) s.cons
